@@ -1,10 +1,276 @@
-"""C07 (preliminary)"""
-import k1
+"""C07 — timers never fire early, fire in due-time order, cancel promptly, once; time_point arithmetic
+is exact and totally ordered.
+
+Theorems: coq/Properties_C07.v (arithmetic: Arith/MonoClock*, Arith/SortedInsert*) and
+coq/Properties_C07_timers.v (Proto/TimerQueue*: timed_single_thread_context; Proto/UnsafeLoop*:
+thread_unsafe_event_loop).
+Tie:
+  K3  harness/k3_c07.cpp: the real monotonic_clock::time_point operators and the real sorted insertions
+      (intrusive_heap, timed_single_thread_context::enqueue, thread_unsafe_event_loop::enqueue + its
+      cancel callback) against the extracted functions, on inputs aimed at the proofs' case splits;
+      direct monitor = the property text evaluated with exact integers on the implementation's output.
+  K1  harness/k1_timed_context.cpp / k1_unsafe_loop.cpp: lock-step against TimerQueue / UnsafeLoop under
+      dsched with the virtual steady_clock; direct monitors in the drivers.
+The io_epoll / io_uring timers (kernel clock) are not covered here."""
+import json, os, re
+import vlib, k1
 from units import timers
+
 LEVEL = "proof"
-def run(chk, replay=None):
-    chk.prove()
-    k1.run_unit(chk, timers.TimedContext())
+
+NS = 10 ** 9
+TICK = 10 ** 7
+
+
+def trunc_div(a, b):
+    q = abs(a) // abs(b)
+    return q if (a >= 0) == (b > 0) else -q
+
+
+def canonical(s, n):
+    return -NS < n < NS and (s <= 0 or n >= 0) and (s >= 0 or n <= 0)
+
+
+def value(s, n):
+    return s * NS + n
+
+
+# ---------------------------------------------------------------------------------------------- K3
+def gen_arith(chk):
+    rng = chk.rng
+    thorough = chk.tier == "thorough"
+    secs = [-10 ** 10, -86400, -3, -2, -1, 0, 1, 2, 3, 86400, 10 ** 10]
+    nsb = [0, 1, 99, 100, 101, 999999900, 999999999, 10 ** 9, 10 ** 9 + 1, 2 * 10 ** 9 + 5]
+    nss = sorted(set(nsb + [-x for x in nsb]))
+    ticks_b = [0, 1, 99, 100, TICK - 1, TICK, TICK + 1, 2 * TICK - 1, 2 * TICK, 2 * TICK + 1, 123456789, 5 * TICK, 86400 * TICK + 7, 2 ** 50]
+    ticks = sorted(set(ticks_b + [-x for x in ticks_b]))
+    cases = []   # (kind, impl_line, model_line, meta)
+    for s in secs:
+        for n in nss:
+            cases.append(("norm", "norm %d %d" % (s, n), "mc_norm %d %d" % (s, n), (s, n)))
+    for _ in range(2000 if thorough else 300):
+        s = rng.choice([rng.randrange(-5, 6), rng.randrange(-10 ** 11, 10 ** 11)])
+        n = rng.choice([rng.randrange(-3 * NS, 3 * NS), rng.randrange(-10 ** 17, 10 ** 17), rng.choice(nss) + rng.randrange(-2, 3)])
+        cases.append(("norm", "norm %d %d" % (s, n), "mc_norm %d %d" % (s, n), (s, n)))
+    ssmall = [-2, -1, 0, 1, 2] if thorough else [-1, 0, 1, 2]
+    pts = [(s, n) for s in ssmall for n in nss]
+    pts += [(-10 ** 10, -5), (10 ** 10, 999999999), (86400, 100)]
+    for (s, n) in pts:
+        tk = ticks if thorough or canonical(s, n) else ticks[::3]
+        for d in tk:
+            for op in ("add", "sub"):
+                cases.append((op, "%s %d %d %d" % (op, s, n, d), "mc_%s %d %d %d" % (op, s, n, d), (s, n, d)))
+            if d % 7 == 0 or abs(d) in (1, TICK):
+                for op in ("addv", "subv"):
+                    cases.append((op[:3], "%s %d %d %d" % (op, s, n, d), "mc_%s %d %d %d" % (op[:3], s, n, d), (s, n, d)))
+    for _ in range(3000 if thorough else 400):
+        s = rng.randrange(-10 ** 9, 10 ** 9); n = rng.randrange(-NS + 1, NS)
+        if not canonical(s, n):
+            n = -n
+        d = rng.choice([rng.randrange(-2 ** 55, 2 ** 55), rng.randrange(-3 * TICK, 3 * TICK), rng.randrange(-100, 100) * TICK + rng.randrange(-2, 3)])
+        op = rng.choice(["add", "sub"])
+        cases.append((op, "%s %d %d %d" % (op, s, n, d), "mc_%s %d %d %d" % (op, s, n, d), (s, n, d)))
+    pair_pts = pts if thorough else [(s, n) for (s, n) in pts if abs(s) <= 2 and (canonical(s, n) or n % 7 == 0)]
+    for (s1, n1) in pair_pts:
+        for (s2, n2) in pair_pts:
+            cases.append(("diff", "diff %d %d %d %d" % (s1, n1, s2, n2), "mc_diff %d %d %d %d" % (s1, n1, s2, n2), (s1, n1, s2, n2)))
+            cases.append(("cmp", "cmp %d %d %d %d" % (s1, n1, s2, n2), "mc_cmp %d %d %d %d" % (s1, n1, s2, n2), (s1, n1, s2, n2)))
+    for _ in range(4000 if thorough else 500):
+        def pt():
+            s = rng.choice([rng.randrange(-3, 4), rng.randrange(-10 ** 10, 10 ** 10)])
+            n = rng.choice([rng.randrange(-NS + 1, NS), rng.choice(nss)])
+            if rng.random() < 0.8 and not canonical(s, n):
+                n = -n if canonical(s, -n) else 0
+            return s, n
+        (s1, n1), (s2, n2) = pt(), pt()
+        if rng.random() < 0.3:
+            s2 = s1 + rng.randrange(-1, 2)
+        k = rng.choice(["diff", "cmp"])
+        cases.append((k, "%s %d %d %d %d" % (k, s1, n1, s2, n2), "mc_%s %d %d %d %d" % (k, s1, n1, s2, n2), (s1, n1, s2, n2)))
+    return cases
+
+
+def gen_queue(chk):
+    rng = chk.rng
+    thorough = chk.tier == "thorough"
+    cases = []
+    import itertools
+    # all key lists of length <= L over a small alphabet (ties!), plain insertion, for the three real insertions
+    L = 6 if thorough else 5
+    for n in range(0, L + 1):
+        for keys in itertools.product((1, 2, 3), repeat=n):
+            if n >= 5 and not thorough and sum(keys) % 3:
+                continue
+            ops = " ".join("i%d" % k for k in keys)
+            cases.append(("heap", "heap " + ops, "sq_heap " + ops, keys))
+            if n <= 4 or sum(keys) % 2 == 0:
+                cases.append(("ulq", "ulq " + ops, "sq_timed " + ops, keys))
+    for n in range(0, 5):
+        for keys in itertools.product((1, 2, 3), repeat=n):
+            if sum(keys) % 4 == 0:
+                ops = " ".join("i%d" % k for k in keys)
+                cases.append(("tsq", "tsq " + ops, "sq_timed " + ops, keys))
+    # random operation sequences: insert / pop / top / remove (heap), insert / cancel-requeue (loop)
+    for _ in range(3000 if thorough else 500):
+        ops, sim, nxt = [], [], 0        # sim: the queue as (key, id), simulated only to pick valid ids to remove
+        for _ in range(rng.randrange(1, 14)):
+            r = rng.random()
+            if r < 0.55 or not sim:
+                k = rng.choice([rng.randrange(-3, 4), rng.randrange(-1000, 1000)])
+                ops.append("i%d" % k)
+                pos = len([x for x in sim if x[0] <= k])
+                sim.insert(pos, (k, nxt)); nxt += 1
+            elif r < 0.7:
+                ops.append("p"); sim.pop(0)
+            elif r < 0.8:
+                ops.append("t")
+            else:
+                v = rng.choice(sim); sim.remove(v); ops.append("r%d" % v[1])
+        ops = " ".join(ops)
+        cases.append(("heap", "heap " + ops, "sq_heap " + ops, ()))
+    for _ in range(1500 if thorough else 300):
+        ops, fresh, nxt = [], [], 0
+        for _ in range(rng.randrange(1, 12)):
+            if rng.random() < 0.65 or not fresh:
+                ops.append("i%d" % rng.choice([rng.randrange(0, 4), rng.randrange(0, 1000)])); fresh.append(nxt); nxt += 1
+            else:
+                v = rng.choice(fresh); fresh.remove(v); ops.append("x%d" % v)     # each id cancelled at most once
+        ops = " ".join(ops)
+        cases.append(("ulq", "ulq " + ops, "sq_timed " + ops, ()))
+    # pop sequences: insert everything, then pop all (checks min-first, FIFO among ties)
+    for _ in range(600 if thorough else 150):
+        n = rng.randrange(1, 10)
+        ops = ["i%d" % rng.randrange(0, 4) for _ in range(n)] + ["p"] * (n + 1)
+        ops = " ".join(ops)
+        cases.append(("heap", "heap " + ops, "sq_heap " + ops, ()))
+    return cases
+
+
+def monitor_arith(kind, meta, out):
+    """The property ('time_point arithmetic is exact and totally ordered') evaluated with exact integers on
+    what the implementation returned.  Returns (ok, key-suffix, text)."""
+    try:
+        vals = [int(x) for x in out.split()]
+    except Exception:
+        return False, "crash", "unparsable/crash: " + out[:100]
+    if kind == "norm":
+        s, n = meta
+        rs, rn = vals
+        if not canonical(rs, rn):
+            return False, "not-canonical", "normalize(%d,%d) = (%d,%d) is not canonical" % (s, n, rs, rn)
+        if value(rs, rn) != value(s, n):
+            return False, "value", "normalize changes the instant"
+    elif kind in ("add", "sub"):
+        s, n, d = meta
+        if not canonical(s, n):
+            return True, "", ""
+        rs, rn = vals
+        want = value(s, n) + (100 * d if kind == "add" else -100 * d)
+        if value(rs, rn) != want or not canonical(rs, rn):
+            return False, "inexact", "%s: got (%d,%d), exact instant %d" % (kind, rs, rn, want)
+    elif kind == "cmp":
+        s1, n1, s2, n2 = meta
+        if not (canonical(s1, n1) and canonical(s2, n2)):
+            return True, "", ""
+        a, b = value(s1, n1), value(s2, n2)
+        want = [int(a < b), int(a == b), int(a <= b), int(a > b), int(a >= b), int(a != b)]
+        if vals != want:
+            return False, "order", "comparison operators %r, exact %r" % (vals, want)
+    elif kind == "diff":
+        s1, n1, s2, n2 = meta
+        if not (canonical(s1, n1) and canonical(s2, n2)):
+            return True, "", ""
+        d = vals[0]
+        exact = value(s1, n1) - value(s2, n2)
+        if abs(100 * d - exact) >= 100:
+            return False, "error-bound", "difference %d ticks, exact %d ns" % (d, exact)
+        if d != trunc_div(exact, 100):
+            return False, "not-truncation", ("(%d s,%d ns) - (%d s,%d ns) = %d ticks, but the exact difference %d ns truncates to %d ticks"
+                                             % (s1, n1, s2, n2, d, exact, trunc_div(exact, 100)))
+    return True, "", ""
+
+
+def run_k3(chk, replay):
+    exe, err = vlib.build_driver("k3_c07", "plain17")
+    if err:
+        p = chk.replay_file("build_k3", {"kind": "build-failure", "error": err})
+        chk.violation("k3_c07/build", p, no_input=True, text="harness k3_c07 no longer compiles against /repo")
+        return
+    cases = gen_arith(chk) + gen_queue(chk)
+    if replay:
+        r = json.load(open(replay))
+        if "impl_line" in r:
+            cases = [(r["kind"], r["impl_line"], r["model_line"], tuple(r["meta"]))]
+    mlines = sorted(set(c[2] for c in cases))
+    mout = dict(zip(mlines, vlib.model_run(mlines)))
+    iout = vlib.run_impl_lines(exe, [c[1] for c in cases], chunk=2000)
+    dist = {}
+    for (kind, il, ml, meta), io in zip(cases, iout):
+        mo = mout[ml]
+        dist[kind] = dist.get(kind, 0) + 1
+        arith = kind in ("norm", "add", "sub", "diff", "cmp")
+        nontrivial = (arith and any(x != 0 for x in meta)) or (not arith and il.count(" ") >= 2)
+        chk.count(il, nontrivial)
+        mon_ok, mon_key, mon_text = monitor_arith(kind, meta, io) if arith else (True, "", "")
+        if not arith and (io.startswith("CRASH") or not io.endswith("| ok")):
+            mon_ok, mon_key, mon_text = False, "links", "list links inconsistent / crash: " + io[:100]
+        agree = (io == mo)
+        if agree and mon_ok:
+            chk.cov["traces_validated_against_impl"] += 1
+            if nontrivial:
+                chk.sample({"impl_line": il, "impl": io[:120], "model": mo[:120]}, limit=4)
+            continue
+        chk.cov["disagreements_checked"] += 1
+        area = "monotonic_clock" if arith else "sorted_insert"
+        what = {"norm": "normalize", "add": "add", "sub": "sub"}.get(kind, kind)
+        if not mon_ok:
+            key = "%s/%s/%s" % (area, what, mon_key)
+        else:
+            key = "%s/%s/corr" % (area, what)
+        rp = chk.replay_file(key.replace("/", "_"),
+                             {"kind": kind, "impl_line": il, "model_line": ml, "meta": meta, "impl": io, "model": mo,
+                              "monitor": mon_text, "agree_with_model": agree,
+                              "obligation": "K3 correspondence MonoClockDefs/SortedInsertDefs vs monotonic_clock.hpp / intrusive_heap.hpp / enqueue",
+                              "replay": "echo '%s' | %s" % (il, exe)})
+        chk.violation(key, rp, no_input=mon_ok, text="%s: impl=%s model=%s %s" % (il, io[:60], mo[:60], mon_text))
+    chk.cov["input_distribution"] = dist
+
+
+# ---------------------------------------------------------------------------------------------- K1
+def run_unsafe_loop(chk):
     u = timers.UnsafeLoop()
     k1.run_unit(chk, u)
-    print(u.uninit_hits)
+    if not u.uninit_hits:
+        return
+    exe, err = vlib.build_driver(u.driver, u.cfg)
+    confirmed = []
+    for prog, ev in u.uninit_hits:
+        rc, out, errt = vlib.sh2([exe, "crashchild", prog[0], prog[1], prog[2]], timeout=60)
+        confirmed.append({"program": list(prog), "event": ev, "forked_child_running_it_for_real": out.strip().split("\n")[-1]})
+    rp = chk.replay_file("unsafe_loop_uninit_links",
+                         {"kind": "monitor-failed-on-implementation", "unit": u.name,
+                          "what": "operation_base::next_/prevPtr_ have no initialiser; started with stop already requested and a "
+                                  "future due time, the inline cancel callback tests prevPtr_ != nullptr and writes through it",
+                          "cases": confirmed, "model": "Proto/UnsafeLoopDefs.v with lnk0 = LUninit; theorem C07_ul_no_uninit_read_refuted",
+                          "replay": "%s %s --replay -    and    %s crashchild %s" % (exe, " ".join(u.uninit_hits[0][0]), exe, " ".join(u.uninit_hits[0][0][:2]))})
+    chk.violation("thread_unsafe_event_loop/prestopped/uninit-links", rp,
+                  text="cancel callback reads uninitialised next_/prevPtr_ (%d programs; child: %s)"
+                       % (len(confirmed), confirmed[0]["forked_child_running_it_for_real"]))
+
+
+def run(chk, replay=None):
+    chk.cov["trusted_base"] = [
+        "Coq 8.16.1 kernel; Print Assumptions of every theorem in Properties_C07.v / Properties_C07_timers.v: closed under the global context",
+        "extraction ExtrOcamlBasic only; ocaml/lockstep.ml, conv.ml, handlers/h_c07arith.ml, h_timerqueue.ml glue",
+        "harness: verif_shim.hpp + dsched (serialises real threads: sequential consistency assumed; virtual steady_clock), "
+        "k1_timed_context.cpp, k1_unsafe_loop.cpp, k3_c07.cpp, tools/units/timers.py projections (lock-word canonicalisation, clock-jump replay)",
+        "modelled not verified: int64 overflow of time_point arithmetic is outside the model (unbounded Z); the stop source is modelled at "
+        "lock granularity (its internals are C03's); plain fields under mutex_ are folded into the lock/unlock steps; "
+        "io_epoll/io_uring timers (kernel clock) are not covered"]
+    chk.cov["rule"] = ("K3: one case per input line, non-trivial = some operand non-zero / at least two queue operations; "
+                       "K1: all schedules with <= bound preemptions plus seeded random ones, distinct = distinct projected traces, "
+                       "non-trivial = at least two context switches among owned events (thread_unsafe_event_loop: >= 4 owned events)")
+    chk.prove()
+    run_k3(chk, replay)
+    k1.run_unit(chk, timers.TimedContext())
+    run_unsafe_loop(chk)
